@@ -166,6 +166,8 @@ def make_history(base, cfg, r, n_commits=None, kind=None):
                                       "wide_schema", "schema_overflow", "freelist_drain", "deep_append", "ddl", "flipflop", "overflow_inplace"):
         n_commits = r.randint(3, 6)      # these shapes need a few commits to show at all
     n_commits = n_commits if n_commits is not None else r.randint(1, 6)
+    if kind == "schema_overflow":
+        n_commits = max(n_commits, 6)      # create / rename / insert / drop / reuse + create: the freed overflow pages are reused
     wal_size = mx_frame(work)
     stale_generation = False
     flip = {}
@@ -287,7 +289,7 @@ def make_history(base, cfg, r, n_commits=None, kind=None):
             bigcols = ", ".join(f"column_number_{i:03d} text" for i in range(60)) + ", pad" + "x" * 40
             if step == 0:
                 if k:
-                    ins(12)
+                    ins(12, big=True)      # large values: the pages freed by the DROP are taken from the freelist
                 con.execute(f"CREATE TABLE big{k} ({bigcols})")
                 con.execute(f"INSERT INTO big{k} (column_number_000, column_number_059) VALUES ('x', 'y')")
             elif step == 1:
